@@ -92,10 +92,11 @@ def gen_c14(seed, n, tier):
     return out
 
 
-def run_sub(scn_path, hashseed, offset, tz=None):
+def run_sub(scn_path, hashseed, offset, tz=None, step=0):
     env = dict(os.environ)
     env["PYTHONHASHSEED"] = str(hashseed)
     env["VERIF_CLOCK_OFFSET_S"] = str(offset)
+    env["VERIF_CLOCK_STEP_S"] = str(step)
     if tz:
         env["TZ"] = tz          # the process's local time zone must not matter either
     p = subprocess.run([sys.executable, "-m", "harness.run_one", scn_path], cwd=ROOT, env=env, stdout=subprocess.PIPE, stderr=subprocess.PIPE, text=True, timeout=300)
@@ -146,6 +147,19 @@ def check_c14(tier, seed):
                               "restored_exc": bool(_dt.datetime is before)})
                 if i == 0:
                     samples.append({"scenario": scn["id"], "orders": len(runs[0]["ledger"]), "ledger_head": runs[0]["ledger"][:2], "hashseeds": [os.environ.get("PYTHONHASHSEED"), 1, 4242], "aborted_run_error": tr2["error"]})
+        # state kept across markets and hours on the framework's clock (the hourly transaction count of a client with a
+        # limit): the same run under a wall clock that is shifted, and under one that runs fast (twenty minutes per reading)
+        for i in range(4 if tier == "quick" else 40):
+            g = Gen(seed * 92821 + i, {"p_txlimit": 1.0, "n_markets": (2, 3), "market_starts": [100000, 3700000, 7300000], "gaps": [100, 1000, 60000, 600000], "p_action": 0.9,
+                                       "max_orders": 12, "n_updates": (5, 10)})
+            scn = g.scenario("dt%d" % i)
+            scn["cfg"]["transaction_limit"] = g.rnd.choice([1, 2, 3, 5])
+            sp = os.path.join(wd, "scn_dt_%d.json" % i)
+            with open(sp, "w") as f:
+                json.dump(scn, f)
+            tr = run_scenario(scn, snapshots=False)
+            runs = [{"ledger": ledger_of(tr), "restored": tr["dt_restored"]}, run_sub(sp, 1, 0, step=1200), run_sub(sp, 7, 1800, tz="JST-9")]
+            cases.append({"kind": "det", "id": scn["id"] + "_det", "runs": [r["ledger"] for r in runs], "restored": [bool(r["restored"]) for r in runs], "restored_exc": True})
         # files carrying several markets: every update re-emits the last book of every active market of the file,
         # each with its own publish time; the clock must follow each book it is processing
         for i in range(10 if tier == "quick" else 100):
